@@ -738,3 +738,180 @@ def c01_write_driver(ctx):
     res["stats"]["c01.model_written_archives_read_by_rust"] = res["evals"]
     shutil.rmtree(tmpd, ignore_errors=True)
     return res
+
+
+# ---------------------------------------------------------------- C02: interoperability with an independent implementation
+def _rle_dec(s):
+    if s == "-":
+        return b""
+    out = bytearray()
+    for p in s.split("."):
+        if p.startswith("z"):
+            out += b"\0" * int(p[1:])
+        else:
+            out += bytes.fromhex(p)
+    return bytes(out)
+
+
+def _rle_enc(b):
+    if not b:
+        return "-"
+    out, lit, i = [], bytearray(), 0
+    while i < len(b):
+        if b[i] == 0:
+            j = i
+            while j < len(b) and b[j] == 0:
+                j += 1
+            if j - i >= 8:
+                if lit:
+                    out.append(lit.hex())
+                    lit = bytearray()
+                out.append("z%d" % (j - i))
+            else:
+                lit += b"\0" * (j - i)
+            i = j
+        else:
+            lit.append(b[i])
+            i += 1
+    if lit:
+        out.append(lit.hex())
+    return ".".join(out)
+
+
+def _ref_decode_unit(stored, expected):
+    """the independent codec of the reference implementation: CPython's zlib / bz2"""
+    import zlib, bz2
+    if len(stored) >= expected:
+        return stored[:expected]
+    m, payload = stored[0], stored[1:]
+    if m == 0x02:
+        return zlib.decompress(payload)
+    if m == 0x10:
+        return bz2.decompress(payload)
+    raise ValueError("method %#x outside the published subset" % m)
+
+
+def _ref_encode_unit(plain, method):
+    import zlib, bz2
+    if method == 0 or not plain:
+        return plain
+    payload = zlib.compress(plain, 6) if method == 0x02 else bz2.compress(plain, 9)
+    return plain if 1 + len(payload) >= len(plain) else bytes([method]) + payload
+
+
+def c02_driver(ctx):
+    res = {"evals": 0, "nontrivial": 0, "stats": {}, "samples": [], "oracle_fail": [], "disagreements": [], "model_cases": 0}
+    st = res["stats"]
+
+    def bump(k, n=1):
+        st[k] = st.get(k, 0) + n
+    wvh, wvmodel, tier, seed = ctx["wvh"], ctx["wvmodel"], ctx["tier"], ctx["seed"]
+    d = os.path.join(ctx["outdir"], "c02")
+    shutil.rmtree(d, ignore_errors=True)
+    os.makedirs(d)
+    n = 40 if tier == "quick" else 400
+    subprocess.run([wvh, "fsop", "mk02", d, str(seed), str(n)], stdout=subprocess.DEVNULL)
+    # ---- direction 1: archives written by the builder, read by the reference (Lean layout/crypto + CPython codecs)
+    for i in range(n):
+        ap, tp = os.path.join(d, "a%d.mpq" % i), os.path.join(d, "a%d.txt" % i)
+        if not (os.path.exists(ap) and os.path.exists(tp)):
+            continue
+        arch = open(ap, "rb").read()
+        if len(arch) > 150000:
+            continue
+        lines = open(tp).read().strip().split("\n")
+        cfg = lines[0]
+        ar = _rle_enc(arch)
+        files = [l.split(" ") for l in lines[1:]]
+        outs = _model(wvmodel, ["mpqheader " + ar] + ["mpqunits published %s %s" % (ar, f[0]) for f in files] +
+                      ["mpqunits published %s %s" % (ar, b"never\\added.bin".hex())] +
+                      ["mpqunits code %s %s" % (ar, f[0]) for f in files])
+        outs_code = outs[2 + len(files):]
+        rust_hdr = subprocess.run([wvh, "fsop", "header", ap], stdout=subprocess.PIPE, text=True).stdout.strip()
+        res["evals"] += 1
+        res["model_cases"] += 1
+        if outs[0] != rust_hdr:
+            res["disagreements"].append((i, "header of builder archive (%s)" % cfg, rust_hdr, outs[0]))
+        for fi, (f, o) in enumerate(zip(files, outs[1:])):
+            name = bytes.fromhex(f[0]).decode("utf-8", "replace")
+            method, enc, want = int(f[1]), int(f[2]), _rle_dec(f[3])
+            res["evals"] += 1
+            cls = "%s-%s-%s" % ("path" if "\\" in name else "flat", ["plain", "enc", "fixkey"][enc], "tail%d" % (len(want) % 4) if enc else "na")
+            bump("c02.ref_reads_builder." + cls)
+            what = "%s file=%s len=%d method=%#x enc=%d" % (cfg, name, len(want), method, enc)
+            if not o.startswith("ok "):
+                res["oracle_fail"].append(("reference-cannot-read-builder-file", what + ": " + o))
+                continue
+            try:
+                _, flags, units = o.split(" ", 2)
+                got = b"".join(_ref_decode_unit(_rle_dec(u.split(":", 1)[1]), int(u.split(":", 1)[0])) for u in units.split(";")) if units else b""
+            except Exception as e:
+                got = None
+                err = str(e)
+            if got != want:
+                tag = "reference-reads-different-bytes"
+                if enc and "\\" in name:
+                    tag = "interop-file-key-from-full-path"
+                elif enc:
+                    # flat name, so the key agrees: what differs is the handling of the 1-3 bytes after the last whole dword
+                    tag = "interop-encrypted-tail-bytes"
+                res["oracle_fail"].append((tag, what + (": %s" % err if got is None else ": %d bytes, differ" % len(got))))
+                # inside the region of a listed convention difference the independent codecs must still agree once the
+                # library's own two conventions are used: anything else is a new violation, not the listed finding
+                oc = outs_code[fi] if fi < len(outs_code) else "err"
+                try:
+                    _, _, units = oc.split(" ", 2)
+                    got2 = b"".join(_ref_decode_unit(_rle_dec(u.split(":", 1)[1]), int(u.split(":", 1)[0])) for u in units.split(";")) if units else b""
+                except Exception as e2:
+                    got2 = None
+                if got2 != want:
+                    res["oracle_fail"].append(("independent-codecs-cannot-read-builder-file", what + ": even with the library's key and tail conventions"))
+            else:
+                res["nontrivial"] += 1
+        if not outs[1 + len(files)].startswith("err notfound"):
+            res["oracle_fail"].append(("reference-resolves-never-added-name", cfg))
+    # ---- direction 2: archives written by the reference, read by this library
+    rng = _R(seed + 7)
+    nrev = 30 if tier == "quick" else 300
+    for i in range(nrev):
+        ver, shift = rng.below(2), rng.pick([0, 0, 1, 3])
+        ssz = 512 << shift
+        specs, exp = [], []
+        nf = 1 + rng.below(5)
+        for k in range(nf):
+            name = ["flat%d.txt" % k, "Dir\\Sub\\file%d.dat" % k, "a\\b%d.bin" % k, "x%d" % k][k % 4]
+            ln = rng.pick([0, 1, 2, 3, 5, ssz - 1, ssz, ssz + 1, 2 * ssz, 3 * ssz + 7, rng.below(3 * ssz) + 1])
+            cls = rng.below(3)
+            data = bytes((rng.next() & 0xFF) for _ in range(ln)) if cls == 0 else bytes([65 + (j // 9 + k) % 5 for j in range(ln)]) if cls == 1 else b"\0" * ln
+            method = rng.pick([0, 0x02, 0x10])
+            enc = rng.below(3)
+            secs = [data] if ln <= ssz else [data[j:j + ssz] for j in range(0, ln, ssz)]
+            units = [_ref_encode_unit(s_, method) for s_ in secs]
+            specs.append("%s|%d|%s|%s" % (name.encode().hex(), enc, _rle_enc(data), ",".join(_rle_enc(u) for u in units) if units else "-"))
+            exp.append("%s=%s" % (name.encode().hex(), _rle_enc(data)))
+            bump("c02.lib_reads_reference.%s.%s" % (["plain", "enc", "fixkey"][enc], "path" if "\\" in name else "flat"))
+        hs = 4
+        while hs < 2 * nf:
+            hs *= 2
+        out = _model(wvmodel, ["mpqwrite published %d %d %d %s" % (ver, shift, hs, " ".join(specs))])[0]
+        af, ef = os.path.join(d, "r.txt"), os.path.join(d, "e.txt")
+        open(af, "w").write(out)
+        open(ef, "w").write(" ".join(exp))
+        p = subprocess.run([wvh, "fsop", "readall", af, ef], stdout=subprocess.PIPE, text=True)
+        res["evals"] += nf
+        for l in p.stdout.split("\n"):
+            if l.startswith("FAIL"):
+                nm = l.split(":")[0].replace("FAIL ", "")
+                spec_enc = next((int(sp.split("|")[1]) for sp in specs if bytes.fromhex(sp.split("|")[0]).decode().upper().replace("/", "\\") == nm.upper().replace("/", "\\")), 0)
+                tag = "library-cannot-read-reference-file"
+                if spec_enc and ("\\" in nm or "/" in nm):
+                    tag = "interop-file-key-from-full-path"
+                elif spec_enc:
+                    tag = "interop-encrypted-tail-bytes"
+                res["oracle_fail"].append((tag, "reference-written V%d shift=%d: %s" % (ver + 1, shift, l)))
+        if "ok" in p.stdout.split("\n"):
+            res["nontrivial"] += nf
+    if len(res["samples"]) < 2:
+        res["samples"].append({"direction1": "builder archive -> Lean layout/crypto (published conventions) + CPython zlib/bz2", "direction2": "CPython-compressed units -> Lean writer -> Archive::open/read_file"})
+    shutil.rmtree(d, ignore_errors=True)
+    return res
